@@ -275,6 +275,9 @@ Fails(s, e) ==
           \cup F("Tovalues.EqualsClaims", tvR # {})
           \cup F("Tobinary.EntryOfString", tbR # {})
           \cup F("Items.EntriesInQualifierOrder", itR # {})
+          \* the object does not change by being read: every items() call
+          \* lists the same entries
+          \cup F("Items.SameOnEveryCall", e.items2 = e.items)
           \cup F("Items.EntriesOfRepeatedStringsListed",
                   itR = {} \/ \E rho \in itR : ItemsAllOK(m, rho, vals, e))
           \cup F("OneResolution", tvR = {} \/ tbR = {} \/ itR = {}
